@@ -79,9 +79,19 @@ class UpgradedAnnotation(metaclass=abc.ABCMeta):
         return _PreEvaluatedAnnotation(value)
 
     def __eq__(self, other):
+        if self is other:
+            return True
         if isinstance(other, UpgradedAnnotation):
-            return self.source_value() == other.source_value()
+            try:
+                return self.source_value() == other.source_value()
+            except Exception:
+                # e.g. a postponed annotation naming something that only
+                # exists under TYPE_CHECKING: compare without evaluating
+                return self._unevaluated() == other._unevaluated()
         return False
+
+    def _unevaluated(self):
+        return (id(self),)
 
 
 def _is_co_flag_enabled(obj):
@@ -110,6 +120,9 @@ class _PostponedAnnotation(UpgradedAnnotation):
 
     def source_value(self):
         return eval(self._raw_annotation, self._function.__globals__, {})
+
+    def _unevaluated(self):
+        return (self._raw_annotation, id(self._function.__globals__))
 
 
 @attr.define(eq=False)
